@@ -14,7 +14,7 @@ import (
 var verifIntrinsics = map[string]intrinsicFn{}
 
 func (m *machine) logNondet(kind string, lo int64, terms []*term, conc []int64) {
-	m.nondetLog = append(m.nondetLog, nondetRec{kind: kind, terms: terms, lo: lo, conc: conc})
+	m.nondetLog = append(m.nondetLog, nondetRec{key: m.lazyKey, kind: kind, terms: terms, lo: lo, conc: conc})
 }
 
 func (m *machine) freshInt(label string, w int, signed bool) value {
@@ -206,6 +206,25 @@ func init() {
 			panic(unsupported("verifAdvanceCounter: closure captures no *atomic.Uint32"))
 		}
 		return nil, true
+	}
+	// verifLazySlice(n, gen): a slice of n elements, element i materialised by gen(i) at its first
+	// access (lazy initialisation): the code under test explores only the shapes it looks at.
+	v["verifLazySlice"] = func(m *machine, fr *frame, fn *ssa.Function, a []value) (value, bool) {
+		n := int(m.concInt(a[0], "n"))
+		if m.lazyCount == nil {
+			m.lazyCount = map[string]int{}
+		}
+		key := fmt.Sprintf("%s#%d", m.lazyKey, m.lazyCount[m.lazyKey])
+		m.lazyCount[m.lazyKey]++
+		vs := make([]value, n)
+		for i := range vs {
+			vs[i] = &lazyCell{gen: a[1], idx: i, key: fmt.Sprintf("%s/%d", key, i)}
+		}
+		if n == 0 {
+			et := fn.Signature.Results().At(0).Type().Underlying().(*types.Slice).Elem()
+			return m.makeSlice(et, 0, 0), true
+		}
+		return m.sliceFromValues(vs), true
 	}
 	v["verifFail"] =func(m *machine, fr *frame, fn *ssa.Function, a []value) (value, bool) {
 		m.asserts++
